@@ -48,7 +48,7 @@ def main():
         for p in props:
             t0 = time.time()
             e = dict(ENV, VERIF_REPO=wt)
-            pr = subprocess.run(['/verif/check', p, 'quick'], env=e, capture_output=True, text=True, timeout=3600)
+            pr = subprocess.run([os.environ.get('VF_CHECK', '/verif/check'), p, 'quick'], env=e, capture_output=True, text=True, timeout=3600)
             lines = pr.stdout.strip().split('\n')
             viol = [l for l in lines if l.startswith('VIOLATION')]
             detail = [l.strip() for l in lines if l.startswith('  item=')]
